@@ -23,7 +23,7 @@ import ast
 import os
 import copy
 
-from .pm import AnalysisError, norm
+from .pm import AnalysisError, Undecided, norm
 from . import gi, df
 from . import expand as _expand
 from .gi import f_and, f_or, f_not, Exit
@@ -3594,6 +3594,50 @@ def guard_present(w, exit_pred, atom_pred, positive=True):
             return True
     return False
 
+
+
+def all_atoms(w):
+    """every opaque atom text in any exit or effect condition of a walk"""
+    out = set()
+    for e in list(w.exits) + list(w.effects):
+        c = getattr(e, "cond", None)
+        if c is None:
+            c = getattr(e, "reach", None)
+        if c not in (True, False, None):
+            out |= {o for o in gi.f_opaques(c) if isinstance(o, str)}
+    return out
+
+
+def must_refuse(ctx, w, key, where, what, atom_pred, term_pred, assume=True, refuse_pred=None, positive=True, sample=None):
+    """`whenever <atom> holds (and <assume>), the function refuses`: some atom of the wanted kind, together with `assume`,
+    entails the disjunction of the refusing exits.  The atom is found by what it is ABOUT (a predicate on canonical texts over the
+    function's inputs), never by a local's name.  Three outcomes: entailed => holds; an atom of the kind exists and does not
+    entail a refusal, or nothing in any condition, effect or result of the function mentions the term at all (the value is never
+    looked at, so no spelling of the guard can be present) => violated; the term is mentioned in a form this rule does not read
+    => undecided."""
+    refuse = exits_formula(w, refuse_pred or (lambda e: e.kind == "raise"))
+    atoms = sorted(a for a in all_atoms(w) if atom_pred(a))
+    if atoms:
+        lit = (lambda a: ("op", a)) if positive else (lambda a: ("not", ("op", a)))
+        ok = refuse is not False and any(entails(f_and(assume, lit(a)), refuse) for a in atoms)
+        if ok:
+            ctx.ok(key, sample=sample or {"rule": key, "guard": atoms[0][:160], "refusal": "entailed"})
+        else:
+            ctx.bad(key, where, "%s: the test `%s` does not lead to a refusal on every path" % (what, atoms[0][:160]))
+        return ok
+    texts = set(all_atoms(w))
+    for e in w.exits:
+        if e.value is not None:
+            texts.add(norm(w.sub(e.value)) if hasattr(w, "sub") else norm(e.value))
+    for e in w.effects:
+        try:
+            texts.add(e.text())
+        except Exception:
+            pass
+    if any(term_pred(t) for t in texts):
+        raise Undecided("%s: the value is used, in a form this rule does not read" % what)
+    ctx.bad(key, where, "%s: the value that would show it is never looked at (no test, call or result of the function mentions it)" % what)
+    return False
 
 def exit_under(w, exit_pred, atom_pred, positive=True):
     """some exit of the wanted kind is taken only when an atom of the wanted kind holds / fails (the weaker companion of
